@@ -47,6 +47,61 @@ enum Shape {
     Text(String),
 }
 
+/// Variant payloads that are themselves compound: a newtype variant around a tuple, a tuple struct, an array,
+/// a sequence, a map, an option, a unit, and around another enum in each of its shapes.
+#[derive(Debug, Clone, PartialEq, Serialize, Deserialize)]
+struct Rgb(u8, u8, u8);
+
+#[derive(Debug, Clone, PartialEq, Serialize, Deserialize)]
+struct Meters(i64);
+
+#[derive(Debug, Clone, PartialEq, Serialize, Deserialize)]
+enum Wrap {
+    Point((i32, i32)),
+    Colour(Rgb),
+    Len(Meters),
+    Arr([u8; 3]),
+    Seq(Vec<i32>),
+    Dict(BTreeMap<String, i32>),
+    Opt(Option<i32>),
+    Inner(Shape),
+    Boxed(Box<Wrap>),
+    Both((i32, i32), String),
+    Fields { at: (u8, u8), shape: Shape },
+}
+
+fn gen_wrap(rng: &mut Rng, depth: usize) -> Wrap {
+    match rng.below(if depth > 2 { 10 } else { 11 }) {
+        0 => Wrap::Point((gen_i64(rng) as i32, gen_i64(rng) as i32)),
+        1 => Wrap::Colour(Rgb(rng.next_u32() as u8, 128, 0)),
+        2 => Wrap::Len(Meters(gen_i64(rng))),
+        3 => Wrap::Arr([1, rng.next_u32() as u8, 3]),
+        4 => Wrap::Seq((0..rng.below(3)).map(|_| gen_i64(rng) as i32).collect()),
+        5 => Wrap::Dict((0..rng.below(3)).map(|i| (format!("k{}", i), i as i32)).collect()),
+        6 => Wrap::Opt(if rng.bool() { Some(7) } else { None }),
+        7 => Wrap::Inner(gen_shape(rng)),
+        8 => Wrap::Both((1, 2), gen_string(rng)),
+        9 => Wrap::Fields { at: (3, 4), shape: gen_shape(rng) },
+        _ => Wrap::Boxed(Box::new(gen_wrap(rng, depth + 1))),
+    }
+}
+
+fn wrap_class(w: &Wrap) -> &'static str {
+    match w {
+        Wrap::Point(_) => "enum/newtype-of-tuple",
+        Wrap::Colour(_) => "enum/newtype-of-tuple-struct",
+        Wrap::Len(_) => "enum/newtype-of-newtype-struct",
+        Wrap::Arr(_) => "enum/newtype-of-array",
+        Wrap::Seq(_) => "enum/newtype-of-seq",
+        Wrap::Dict(_) => "enum/newtype-of-map",
+        Wrap::Opt(_) => "enum/newtype-of-option",
+        Wrap::Inner(_) => "enum/newtype-of-enum",
+        Wrap::Boxed(_) => "enum/newtype-of-boxed-enum",
+        Wrap::Both(..) => "enum/tuple-variant-with-tuple-field",
+        Wrap::Fields { .. } => "enum/struct-variant-with-compound-fields",
+    }
+}
+
 #[derive(Debug, Clone, PartialEq, Serialize, Deserialize)]
 struct Nested {
     shapes: Vec<Shape>,
@@ -296,6 +351,12 @@ pub fn run(ctx: &Ctx) {
         rt(ctx, "Option<String>", &os);
         let oi: Option<i64> = Some(gen_i64(&mut rng));
         rt(ctx, &format!("Option<i64>/{}", width_class_i(oi.unwrap() as i128)), &oi);
+        let w = gen_wrap(&mut rng, 0);
+        rt(ctx, wrap_class(&w), &w);
+        let res: Result<(i32, i32), String> = if rng.bool() { Ok((1, gen_i64(&mut rng) as i32)) } else { Err(gen_string(&mut rng)) };
+        rt(ctx, "Result<(i32,i32),String>", &res);
+        let res2: Result<Shape, Wrap> = if rng.bool() { Ok(gen_shape(&mut rng)) } else { Err(gen_wrap(&mut rng, 1)) };
+        rt(ctx, "Result<enum,enum>", &res2);
         // options of containers, empty ones included ("present but empty" is not "absent")
         let ov: Option<Vec<i32>> = match rng.below(4) { 0 => None, 1 => Some(vec![]), _ => Some((0..rng.below(4)).map(|_| gen_i64(&mut rng) as i32).collect()) };
         rt(ctx, match &ov { None => "Option<Vec<i32>>/none", Some(v) if v.is_empty() => "Option<Vec<i32>>/some-empty", _ => "Option<Vec<i32>>/some" }, &ov);
